@@ -91,6 +91,8 @@ class Built:
     def behaviour(self, t):
         b = self.fail_beh if (t in self.cfg['fail'] and not self.ctx_fail) else 'ok'
         extra = self.beh.get(t)
+        if t in (self.cfg.get('nulls') or []):
+            extra = (extra + ' N') if extra else 'N'
         return b + (' ' + extra if extra else '')
 
     def make(self, t, fresh=False):
